@@ -64,6 +64,7 @@ type WsOut struct {
 	Orders   int             `json:"orders"`
 	Errors   []string        `json:"errors"`
 	Inputs   []InputCase     `json:"inputs"`
+	Seconds  float64         `json:"seconds"` // wall time spent on this workspace (evidence only)
 }
 
 func perms(xs []string) [][]string {
@@ -111,8 +112,10 @@ type job struct {
 	conc         bool
 }
 
-func runWorkspace(ctx context.Context, rng *hutil.Rng, ws probe.Workspace, procs int, tier string, withOracle, full bool) WsOut {
-	out := WsOut{Kind: "ws", Procs: procs, WS: ws, N: len(ws.Files), Errors: []string{}, Variants: [][]string{}, Runs: []Run{}, Canons: []probe.Canon{}, Inputs: []InputCase{}}
+func runWorkspace(ctx context.Context, rng *hutil.Rng, ws probe.Workspace, procs int, tier string, withOracle, full bool) (out WsOut) {
+	wsStart := time.Now()
+	defer func() { out.Seconds = time.Since(wsStart).Seconds() }()
+	out = WsOut{Kind: "ws", Procs: procs, WS: ws, N: len(ws.Files), Errors: []string{}, Variants: [][]string{}, Runs: []Run{}, Canons: []probe.Canon{}, Inputs: []InputCase{}}
 	root := fmt.Sprintf("w%d", ws.ID)
 	if err := os.RemoveAll(root); err != nil {
 		panic(err)
@@ -126,7 +129,12 @@ func runWorkspace(ctx context.Context, rng *hutil.Rng, ws probe.Workspace, procs
 		names = append(names, filepath.Join(root, f.Name))
 	}
 	sort.Strings(names)
+	if len(ws.Args) > 0 {
+		// an explicit argument list: the files are those below the arguments
+		names = expandArgs(root, ws.Args)
+	}
 	n := len(names)
+	out.N = n
 
 	// ---- rule oracle -----------------------------------------------------------------------
 	if withOracle {
@@ -212,8 +220,26 @@ func runWorkspace(ctx context.Context, rng *hutil.Rng, ws probe.Workspace, procs
 		nsample = 16
 	}
 	var variants [][]string
-	if n <= maxExh {
+	if len(ws.Args) > 0 {
+		// every distinct order of the argument list (directories and files, maybe overlapping or repeated)
+		var as []string
+		for _, a := range ws.Args {
+			as = append(as, filepath.Join(root, a))
+		}
+		variants = distinctPerms(as)
+	} else if n <= maxExh {
 		variants = perms(names)
+		mv := ws.MaxVariants
+		if mv > 2 && procs == 1 && tier == "quick" && !full {
+			mv = 2
+		}
+		if mv > 1 && len(variants) > mv { // evenly spaced, first and last included
+			var keep [][]string
+			for i := 0; i < mv; i++ {
+				keep = append(keep, variants[i*(len(variants)-1)/(mv-1)])
+			}
+			variants = keep
+		}
 	} else {
 		variants = append(variants, append([]string{}, names...))
 		rv := append([]string{}, names...)
@@ -228,9 +254,11 @@ func runWorkspace(ctx context.Context, rng *hutil.Rng, ws probe.Workspace, procs
 		}
 	}
 	nperm := len(variants)
-	variants = append(variants, []string{root})                                   // the directory
-	variants = append(variants, append(append([]string{}, names...), names[n-1])) // a duplicate
-	variants = append(variants, append([]string{names[n-1], root}, names[0]))     // overlap
+	if len(ws.Args) == 0 {
+		variants = append(variants, []string{root})                                   // the directory
+		variants = append(variants, append(append([]string{}, names...), names[n-1])) // a duplicate
+		variants = append(variants, append([]string{names[n-1], root}, names[0]))     // overlap
+	}
 	if !full && procs < 16 {
 		// the slow processes run a sample: identity, reverse-ish, one more, and the three extras
 		keep := [][]string{variants[0]}
@@ -240,7 +268,9 @@ func runWorkspace(ctx context.Context, rng *hutil.Rng, ws probe.Workspace, procs
 		if nperm > 2 {
 			keep = append(keep, variants[1+rng.Below(nperm-2)])
 		}
-		keep = append(keep, variants[nperm]) // the directory argument
+		if len(variants) > nperm {
+			keep = append(keep, variants[nperm]) // the directory argument
+		}
 		variants = keep
 	}
 	out.Variants = variants
@@ -249,6 +279,11 @@ func runWorkspace(ctx context.Context, rng *hutil.Rng, ws probe.Workspace, procs
 	reps := 3
 	if !full && procs < 16 && tier == "quick" {
 		reps = 2
+	}
+	// argument lists are about the order of the arguments: the slow processes run each order they sampled once
+	light := len(ws.Args) > 0 && !full && procs < 16 && tier == "quick"
+	if light {
+		reps = 1
 	}
 	var jobs []job
 	for v := range variants {
@@ -262,6 +297,11 @@ func runWorkspace(ctx context.Context, rng *hutil.Rng, ws probe.Workspace, procs
 		nconc = 4
 	} else if procs < 16 {
 		nconc = 2
+	}
+	if light {
+		nconc = 0
+	} else if ws.MaxVariants > 0 && procs < 16 && tier == "quick" {
+		nconc = 1
 	}
 	for r := 0; r < nconc; r++ {
 		jobs = append(jobs, job{rng.Below(len(variants)), reps + r, true})
@@ -448,6 +488,22 @@ func main() {
 	}()
 	ctx := context.Background()
 	rng := hutil.NewRng(hutil.SeedFromEnv())
+	// VERIF_SHARD=i/k: this process runs every k-th workspace, starting with the i-th (the driver starts several
+	// single-threaded processes side by side); all workspaces are generated in every process
+	shardI, shardK, wsNo := 0, 1, 0
+	if sh := os.Getenv("VERIF_SHARD"); sh != "" {
+		if a, b, ok := strings.Cut(sh, "/"); ok {
+			shardI, _ = strconv.Atoi(a)
+			shardK, _ = strconv.Atoi(b)
+		}
+		if shardK < 1 || shardI < 0 || shardI >= shardK {
+			panic("bad VERIF_SHARD: " + sh)
+		}
+	}
+	mine := func() bool {
+		wsNo++
+		return (wsNo-1)%shardK == shardI
+	}
 	// optional: a JSON list of fixed workspaces (corpus / replay) run first; "only" skips the generated ones
 	if len(os.Args) > 6 && os.Args[6] != "" {
 		b, err := os.ReadFile(os.Args[6])
@@ -460,7 +516,9 @@ func main() {
 		}
 		for i, ws := range wss {
 			ws.ID = 1000 + i
-			out.Emit(runWorkspace(ctx, rng, ws, procs, tier, withOracle, true))
+			if mine() {
+				out.Emit(runWorkspace(ctx, rng, ws, procs, tier, withOracle, true))
+			}
 		}
 		if len(os.Args) > 7 && os.Args[7] == "only" {
 			return
@@ -471,6 +529,35 @@ func main() {
 	gen := hutil.NewRng(hutil.SeedFromEnv() ^ 0x5eed)
 	for i, n := range sizes(tier, gen) {
 		ws := probe.GenWorkspace(gen, i, n)
-		out.Emit(runWorkspace(ctx, rng, ws, procs, tier, withOracle, false))
+		if mine() {
+			out.Emit(runWorkspace(ctx, rng, ws, procs, tier, withOracle, false))
+		}
+	}
+	// second family (own generator: the workspaces above stay what they were)
+	gen2 := hutil.NewRng(hutil.SeedFromEnv() ^ 0x5eed2)
+	nskew, nbig := 2, 120
+	if tier != "quick" {
+		nskew, nbig = 8, 300
+	}
+	id := 100
+	for shape := 0; shape < nskew; shape++ {
+		ws := GenSkew(gen2, id, shape, nbig)
+		id++
+		if mine() {
+			out.Emit(runWorkspace(ctx, rng, ws, procs, tier, withOracle, false))
+		}
+	}
+	for i, l := range PrefixLists(gen2, tier) {
+		ws := GenPrefix(gen2, id, l)
+		id++
+		// quick: argument lists are not about the schedule; the GOMAXPROCS=1 process (the slowest) leaves them to the
+		// other two (GOMAXPROCS=16: every order; GOMAXPROCS=2: first, last and one more order)
+		if tier == "quick" && procs == 1 {
+			continue
+		}
+		_ = i
+		if mine() {
+			out.Emit(runWorkspace(ctx, rng, ws, procs, tier, withOracle, false))
+		}
 	}
 }
